@@ -56,12 +56,30 @@ def corpus(contexts):
 
 
 def build_tool(bin_name):
-    env = dict(os.environ, CARGO_TARGET_DIR=TARGET, CARGO_NET_OFFLINE='true')
-    p = subprocess.run(['cargo', 'build', '--offline', '--quiet', '--bin', bin_name], cwd=os.path.join(VERIF, 'replay'),
+    """Build a replay tool against the tree under check.  The crate in /verif/replay path-depends on /repo; when the
+    check is pointed at another tree (VERIF_REPO, used only for seeded-change runs on scratch worktrees) a scratch copy
+    of the crate with the paths substituted is built instead."""
+    repo = os.environ.get('VERIF_REPO', '/repo')
+    src = os.path.join(VERIF, 'replay')
+    target = TARGET
+    if os.path.abspath(repo) != '/repo':
+        import hashlib
+        import shutil
+        tag = hashlib.sha1(os.path.abspath(repo).encode()).hexdigest()[:8]
+        target = TARGET + '-' + tag
+        dst = target + '-src'
+        shutil.rmtree(dst, ignore_errors=True)
+        shutil.copytree(src, dst, ignore=shutil.ignore_patterns('target'))
+        for fn in ('Cargo.toml',):
+            t = open(os.path.join(dst, fn)).read().replace('"/repo/', '"%s/' % os.path.abspath(repo))
+            open(os.path.join(dst, fn), 'w').write(t)
+        src = dst
+    env = dict(os.environ, CARGO_TARGET_DIR=target, CARGO_NET_OFFLINE='true')
+    p = subprocess.run(['cargo', 'build', '--offline', '--quiet', '--bin', bin_name], cwd=src,
                        env=env, capture_output=True, text=True)
     if p.returncode != 0:
         return None, p.stderr[-2000:]
-    return os.path.join(TARGET, 'debug', bin_name), ''
+    return os.path.join(target, 'debug', bin_name), ''
 
 
 def run_selfcheck(tool, inputs):
